@@ -251,8 +251,12 @@ func newPolicyDecider(policy string, arg int, seed uint64, n int) *policyDecider
 			p.prio[i], p.prio[j] = p.prio[j], p.prio[i]
 		}
 		p.change = map[int]bool{}
+		span := 120 * n
+		if deepBuild {
+			span = 1500 * n
+		}
 		for i := 0; i < arg; i++ {
-			p.change[p.r.Intn(120*n)] = true
+			p.change[p.r.Intn(span)] = true
 		}
 	case "herd":
 		p.reached = make([]bool, n)
@@ -378,6 +382,8 @@ func isSyncBlockedState(s string) bool {
 
 func phaseOf(site uint16) string {
 	switch {
+	case site >= siteDeepBase:
+		return "inside"
 	case site == siteSink || site == siteBufW:
 		return "render"
 	case isHookSite(site):
@@ -456,6 +462,11 @@ func runSchedule(env *Env, clients [][]Op, trees []map[int]*treeHandle, dec deci
 		}
 	}
 	parser.SimHook, renderer.SimHook, util.SimHook = hook, hook, hook
+	installDeep(func(id uint32) {
+		if w := s.byGoid[goid()]; w != nil {
+			w.yield(siteDeepBase + uint16(id))
+		}
+	})
 	close(startc)
 
 	state := make([]int, n)
@@ -617,6 +628,7 @@ func runSchedule(env *Env, clients [][]Op, trees []map[int]*treeHandle, dec deci
 		wg.Wait()
 	}
 	parser.SimHook, renderer.SimHook, util.SimHook = nil, nil, nil
+	installDeep(nil)
 	out.evHash = h
 	return out
 }
@@ -705,6 +717,12 @@ func errClass(err error, s *Sink) string {
 func execSched(spec *RunSpec, st *Stats) *Violation {
 	n := len(spec.Clients)
 	if n == 0 {
+		return nil
+	}
+	if spec.Deep != deepBuild {
+		if st != nil {
+			st.Trouble = append(st.Trouble, fmt.Sprintf("this run was recorded with deep=%v but this binary is built with deep=%v (./check replay builds the right one)", spec.Deep, deepBuild))
+		}
 		return nil
 	}
 	// expected results: each operation alone on a fresh instance (not for cold-start runs,
@@ -840,6 +858,48 @@ func execSched(spec *RunSpec, st *Stats) *Violation {
 				return &Violation{Class: "panic", Client: i, Op: k, Detail: "panic in a worker: " + firstLine(res.Panic), Race: race}
 			}
 		}
+	}
+	if spec.Property == "C15" {
+		// Only heading ids are judged here: every heading of every document converted under
+		// this schedule carries the ids it gets alone. Other differences and data races are
+		// C07's business.
+		if !spec.Cfg.C15Applies() {
+			return nil
+		}
+		for i, rs := range out.results {
+			for k, res := range rs {
+				e := expect[i][k]
+				op := spec.Clients[i][k]
+				if e.skip || res.Skipped || op.Fault != nil {
+					continue
+				}
+				got := res.Out
+				if op.Kind == "ParseOnly" {
+					var b bytes.Buffer
+					if err := spec.Cfg.Build().Renderer().Render(&b, pristine[op.Doc], res.Tree.node); err != nil {
+						continue
+					}
+					got = b.Bytes()
+				}
+				if st != nil {
+					st.Inc("sched.c15_ops_judged")
+				}
+				if bytes.Equal(got, e.out) {
+					continue
+				}
+				ids, v := headingIDs(got)
+				if v != nil {
+					v.Client, v.Op = i, k
+					return v
+				}
+				want, _ := headingIDs(e.out)
+				if !sameIDs(ids, want) {
+					return &Violation{Class: "id-schedule-dependent", Client: i, Op: k, Want: e.out, Got: got,
+						Detail: fmt.Sprintf("heading ids %q under this schedule on a shared instance, %q when the document is converted alone", ids, want)}
+				}
+			}
+		}
+		return nil
 	}
 	for i, rs := range out.results {
 		for k, res := range rs {
